@@ -378,12 +378,12 @@ def symmetric_moving_average(a, wing_width):
     n = len(a)
     out = np.empty(n, dtype=a.dtype)
     asum = a[:wing_width].sum()
-    count = wing_width
+    count = min(wing_width, n)
     for i in range(len(a)):
         # Index of the sample that just disappeared
         # from the window
         just_out = i - wing_width - 1
-        if just_out > 0:
+        if just_out >= 0:
             count -= 1
             asum -= a[just_out]
 
